@@ -222,7 +222,7 @@ func replayMatches(rf *ReplayFile, failed []string, panicked string) bool {
 		for _, f := range failed {
 			if strings.HasPrefix(f, "alloc-bytes:") {
 				n, _ := strconv.ParseInt(strings.TrimPrefix(f, "alloc-bytes:"), 10, 64)
-				return n > 16<<20 // tiny inputs must not cost more than 16 MiB
+				return n > 1<<20 // harness inputs are a few bytes: more than 1 MiB is not proportional
 			}
 		}
 		return false
@@ -550,6 +550,21 @@ func cmdCheck(args []string) int {
 		"evaluations":         tot.trivial + tot.unsat + tot.sat + tot.unknown,
 		"distinct_nontrivial": tot.unsat + tot.sat,
 		"rule":                "one evaluation = one proof obligation (assertion, implicit panic check or unwinding assertion) on one symbolic path; non-trivial = needed an SMT query",
+	}
+	supports := 0
+	var sweepMs int64
+	for _, r := range results {
+		supports += r.Supports
+		sweepMs += r.SweepMs
+	}
+	if supports > 0 {
+		cov["supports_checked"] = supports
+		cov["sweep_solver_s"] = float64(sweepMs) / 1000
+		q := cov["queries"].(map[string]interface{})
+		q["support_queries"] = supports
+		q["total"] = tot.queries + supports
+		cov["evaluations"] = tot.trivial + tot.unsat + tot.sat + tot.unknown + supports
+		cov["distinct_nontrivial"] = tot.unsat + tot.sat + supports
 	}
 	for k, v := range ev {
 		cov[k] = v
